@@ -1251,6 +1251,12 @@ def build_goals(run, spec):
             # guard branches (non-finite Hastings term / density): the move must be rejected
             G(tag + 'a non-finite Hastings term or density rejects the move', d.bconst(ev['accepted'] is False),
               'MCMC.run:nonfinite-guard')
+            # the value handed to tune() belongs to THIS iteration's proposal: rejected by the guard => probability 0
+            # (not the acceptance probability left over from an earlier iteration, possibly of another operator)
+            G(tag + 'a proposal rejected by the non-finite guard hands tune() the acceptance probability 0 (not a value of an earlier iteration)',
+              d.and_(d.bconst(ev['acc'] is not None and ev['acc'] != 'nonfinite'),
+                     d.eq(ev['acc'], 0) if isinstance(ev['acc'], int) else d.FALSE),
+              'MCMC.run:guard-reject-stale-acceptance-probability')
         else:
             T1 = fresh_eval(kind, ev['after'])
             G(tag + 'density used for the proposal == target evaluated from scratch at the proposed state',
@@ -2296,26 +2302,33 @@ def guard_task(task, tr):
     if which == 'gmrf-wiring':
         return gmrf_wiring(task, tr)
     tr.fn(MCMC.run)
-    spec = {'target': 'uf1', 'ops': [('scaler', ['x'])], 'plan': [(0, 0, 1), (0, 0, 0)], 'loggers': which == 'inf-hastings'}
-    label = f'guard {which}'
+    full = which
+    base, _, at = full.partition('@')  # 'nan-density@2': the non-finite value appears at the proposal of iteration 2
+    at = int(at or 1)
+    spec = {'target': 'uf1', 'ops': [('scaler', ['x'])], 'plan': [(0, 0, 1), (0, 0, 0)], 'loggers': base == 'inf-hastings'}
+    label = f'guard {full}'
 
     def hooks(mc, ops, joint, st):
-        if which == 'inf-hastings':
+        if base in ('inf-hastings', 'neginf-hastings'):
             inner = ops[0].step
             state = {'n': 0}
+            bad = float('inf') if base == 'inf-hastings' else float('-inf')
 
             def step():
                 h = inner()
                 state['n'] += 1
-                return torch.tensor(float('inf'), dtype=torch.float64) if state['n'] == 1 else h
+                return torch.tensor(bad, dtype=torch.float64) if state['n'] == at else h
 
             ops[0].step = step
         else:
-            joint.nan_at = 2
+            # (the target is evaluated once initially and once per proposal: cached values are reused after accept / reject)
+            joint.nan_at = 1 + at
 
     tr.stubs |= set(Stubs.LIST)
-    tr.stubs.add({'inf-hastings': 'first operator step reports an infinite Hastings term (as HMC / GMRF operators do on failure)',
-                  'nan-density': 'the uninterpreted target returns NaN at the first proposal'}[which])
+    tr.stubs.add({'inf-hastings': 'one operator step (iteration 1 or 2) reports an infinite Hastings term (as HMC / GMRF operators do on failure)',
+                  'neginf-hastings': 'one operator step (iteration 1 or 2) reports a Hastings term -inf',
+                  'nan-density': 'the uninterpreted target returns NaN at one proposal (iteration 1 or 2)'}[base])
+
     def not_rejected(why):
         # the NaN density was not stopped by the guard: decide on plain tensors (stubbed RNG) whether the chain accepted it
         ok, detail = replay_guard(which)
@@ -2328,17 +2341,18 @@ def guard_task(task, tr):
     from symtorch.expr import EngineError
 
     try:
-        run = symbolic_run(spec, {'u1': 0.02, 'xi1': 0.12}, hooks)
+        # (iteration 1 of the @2 scenarios is accepted with probability 1: above the operator's target acceptance probability)
+        run = symbolic_run(spec, dict(task.get('witness') or {'u1': 0.02, 'xi1': 0.12}), hooks)
     except EngineError as e:
-        if which != 'nan-density':
+        if not which.startswith('nan-density'):
             raise
         tr.witness_runs += 1
         return not_rejected(f'the NaN flowed past the non-finite guard of MCMC.run into the acceptance computation: {str(e)[:80]}')
     tr.witness_runs += 1
     tr.regions += 1
     d = run.d
-    if which == 'nan-density' and run.rec['iters']:
-        f0 = run.rec['iters'][0]
+    if which.startswith('nan-density') and len(run.rec['iters']) >= at:
+        f0 = run.rec['iters'][at - 1]
         if f0['accepted'] is not False or f0.get('post') != f0['before']:
             return not_rejected(f'accepted={f0["accepted"]}, state restored={f0.get("post") == f0["before"]}')
     if [c for c in run.concretized if 'isnan' not in c and 'isinf' not in c]:
@@ -2349,7 +2363,7 @@ def guard_task(task, tr):
         return
     with tracing(run.t):
         goals = build_goals(run, spec)
-    first = run.rec['iters'][0]
+    first = run.rec['iters'][at - 1]
     goals.append({'label': 'guard: the move with a non-finite Hastings term / density is rejected and tune() sees probability 0',
                   'node': d.and_(d.bconst(first['accepted'] is False), d.eq(first['acc'], 0)), 'sig': 'MCMC.run:nonfinite-guard',
                   'hyps': 'full', 'extra': [], 'key': None})
@@ -2367,20 +2381,34 @@ def guard_task(task, tr):
 
 
 def replay_guard(which):
-    """concrete: a rejected non-finite move must leave the parameters bit-identical"""
-    spec = {'target': 'uf1', 'ops': [('scaler', ['x'])], 'plan': [(0, 0, 1)], 'loggers': False}
+    """concrete: a rejected non-finite move must leave the parameters bit-identical and hand tune() the probability 0"""
+    which, _, at = which.partition('@')
+    at = int(at or 1)
+    spec = {'target': 'uf1', 'ops': [('scaler', ['x'])], 'plan': [(0, 0, 1), (0, 0, 0)][:at], 'loggers': False}
 
     def hooks(mc, ops, joint, st):
-        if which == 'inf-hastings':
+        if which in ('inf-hastings', 'neginf-hastings'):
             inner = ops[0].step
-            ops[0].step = lambda: (inner(), torch.tensor(float('inf'), dtype=torch.float64))[1]
-        else:
-            joint.nan_at = 2
+            state = {'n': 0}
+            bad = float('inf') if which == 'inf-hastings' else float('-inf')
 
-    rec = execute(spec, {'u0': 0.02, 'xi0': 0.3}, False, hooks)
-    ev = rec['iters'][0]
+            def step():
+                h = inner()
+                state['n'] += 1
+                return torch.tensor(bad, dtype=torch.float64) if state['n'] == at else h
+
+            ops[0].step = step
+        else:
+            joint.nan_at = 1 + at
+
+    rec = execute(spec, {'u0': 0.02, 'xi0': 0.3, 'u1': 0.02, 'xi1': 0.12}, False, hooks)
     if rec['crash']:
         return True, rec['crash']
+    ev = rec['iters'][at - 1]
+    if ev['accepted'] is False and ev['post'] == ev['before'] and ev['acc'] != 0.0:
+        prev = f' (iteration {at - 1} handed {rec["iters"][at - 2]["acc"]!r})' if at > 1 else ''
+        return True, (f'real MCMC.run on plain tensors: the proposal of iteration {at} was rejected by the non-finite guard but tune() was '
+                      f'handed the acceptance probability {ev["acc"]!r} instead of 0{prev}')
     if which == 'nan-density' and (ev['accepted'] is not False or ev['post'] != ev['before']):
         return True, (f'real MCMC.run on plain tensors (u={ev["u"]!r}): the target returned NaN at the proposed state {ev["after"]}, '
                       f'accepted={ev["accepted"]}, acceptance probability handed to tune() {ev["acc"]!r}, chain state afterwards '
@@ -2538,7 +2566,10 @@ def tasks_for(tier):
                chain('normal', [(sc, ['x'])], [(0, 0, 0), (0, 0, 1)]),
                chain('gamma', [(sc, ['r', 'x'])], [(0, 0, 0), (0, 1, 0)]),
                chain('gamma', [(sl, ['r', 'x'])], [(0, 1, 0)]),
-               chain('gamma', [(sl, ['r'])], [(0, 0, 0)]),
+               # (2 iterations: a proposal of iteration 2 that leaves the support of the Gamma prior is rejected by the guard of
+               #  MCMC.run and tune() must see 0, whatever iteration 1 - same or another operator - handed over)
+               chain('gamma', [(sl, ['r'])], [(0, 0, 0), (0, 0, 0)]),
+               chain('gamma', [(sl, ['x']), (sl, ['r'])], [(0, 0, 0), (1, 0, 0)]),
                chain('cat', [(sc, ['p']), (sl, ['q'])], [(0, 0, 0), (1, 0, 0)]),
                chain('exptr', [(sl, ['z'])], [(0, 0, 1), (0, 0, 1)]),
                chain('ufsimplex', [(di, ['x'])], [(0, 0, 0)]),  # (two iterations: thorough tier, ~30 s)
@@ -2571,6 +2602,9 @@ def tasks_for(tier):
                 a, b = names[0], names[-1]
                 for seq in itertools.product((0, 1), repeat=2):
                     ts.append(chain(target, [(sc, [a]), (sl, [b])], [(s, 0, 0) for s in seq]))
+        # two operators, the second one can leave the support of the Gamma prior in iteration 2 (guard rejection: tune() sees 0)
+        ts.append(chain('gamma', [(sc, ['x']), (sl, ['r'])], [(0, 0, 0), (1, 0, 0)]))
+        ts.append(chain('gamma', [(sl, ['x']), (sl, ['r'])], [(0, 0, 0), (1, 0, 0)]))
         for k in (sc, sl, di, 'gmrf', 'hmc', 'adaptive', 'dual'):
             for c in (0, 3, 'sym'):
                 if k in ('dual', 'adaptive') and c == 'sym':
@@ -2579,6 +2613,12 @@ def tasks_for(tier):
         for so_far, acc in ((9, True), (2, False), (7, True)):
             ts.append({'kind': 'tune', 'op': 'adaptive-rate', 'count': 9, 'accepted_so_far': so_far, 'accepted': acc})
     ts += [{'kind': 'guard', 'which': w} for w in ('inf-hastings', 'nan-density', 'gmrf-wiring')]
+    # the same non-finite values at the proposal of iteration 2, after an accepted (probability 1) and after a rejected iteration 1:
+    # tune() must be handed 0, not the acceptance probability of iteration 1
+    for w in ('inf-hastings@2', 'neginf-hastings@2', 'nan-density@2'):
+        ts.append({'kind': 'guard', 'which': w, 'witness': {'u0': 0.02, 'xi0': 0.12, 'u1': 0.02, 'xi1': 0.12}})
+        if tier != 'quick' or w == 'nan-density@2':
+            ts.append({'kind': 'guard', 'which': w, 'witness': {'u0': 0.985, 'xi0': 0.88, 'u1': 0.02, 'xi1': 0.12}})
     # GMRF block update: Hastings term of the real step() (both branches of the precision proposal, scaler == 1,
     # real Newton iteration and its functional-contract twin) and symmetry of the precision proposal
     B2, S1 = {'r1': 0.95}, {'s': 1.0}
